@@ -598,31 +598,28 @@ Proof.
     + exists i, r, c'. rewrite nth_error_set_nth_neq by auto. auto.
 Qed.
 
+Lemma nth_error_count_pos t : forall p c, nth_error t p = Some c -> c <> Empty -> 0 < count_ne t.
+Proof.
+  induction t as [|a t IH]; intros [|p] c Hp Hne; cbn in Hp; try discriminate; rewrite count_ne_cons.
+  - inversion Hp; subst. apply is_empty_false in Hne. rewrite Hne. lia.
+  - specialize (IH _ _ Hp Hne). lia.
+Qed.
+
 Lemma count_one_others cs : forall p c,
   count_ne cs = 1 -> nth_error cs p = Some c -> c <> Empty ->
   forall i c', i <> p -> nth_error cs i = Some c' -> c' = Empty.
 Proof.
   induction cs as [|h t IH]; intros p c Hc Hp Hne i c' Hi Hn; [destruct p; discriminate|].
-  rewrite count_ne_cons in Hc. destruct p as [|p]; cbn in Hp.
+  rewrite count_ne_cons in Hc.
+  destruct (is_empty c') eqn:E; [apply is_empty_true; auto|]. apply is_empty_false in E. exfalso.
+  destruct p as [|p], i as [|i]; cbn in Hp, Hn; try congruence.
   - inversion Hp; subst h. apply is_empty_false in Hne. rewrite Hne in Hc.
-    destruct i as [|i]; [congruence|]. cbn in Hn.
-    destruct (is_empty c') eqn:E; [apply is_empty_true; auto|].
-    exfalso. assert (0 < count_ne t); [|lia].
-    clear - Hn E. revert i Hn. induction t as [|a t IHt]; intros [|i] Hn; cbn in Hn; try discriminate.
-    + inversion Hn; subst. rewrite count_ne_cons, E. lia.
-    + rewrite count_ne_cons. specialize (IHt _ Hn). lia.
-  - destruct i as [|i]; cbn in Hn.
-    + inversion Hn; subst h. destruct (is_empty c') eqn:E; [apply is_empty_true; auto|].
-      exfalso. assert (0 < count_ne t); [|lia].
-      clear - Hp Hne. revert p Hp. induction t as [|a t IHt]; intros [|p] Hp; cbn in Hp; try discriminate.
-      * inversion Hp; subst. rewrite count_ne_cons. apply is_empty_false in Hne. rewrite Hne. lia.
-      * rewrite count_ne_cons. specialize (IHt _ Hp). lia.
-    + destruct (is_empty h) eqn:E.
-      * eapply (IH p c); eauto.
-      * exfalso. assert (0 < count_ne t); [|lia].
-        clear - Hp Hne. revert p Hp. induction t as [|a t IHt]; intros [|p] Hp; cbn in Hp; try discriminate.
-        -- inversion Hp; subst. rewrite count_ne_cons. apply is_empty_false in Hne. rewrite Hne. lia.
-        -- rewrite count_ne_cons. specialize (IHt _ Hp). lia.
+    pose proof (nth_error_count_pos _ _ _ Hn E). lia.
+  - inversion Hn; subst h. apply is_empty_false in E. rewrite E in Hc.
+    pose proof (nth_error_count_pos _ _ _ Hp Hne). lia.
+  - destruct (is_empty h) eqn:Eh.
+    + apply E. apply (IH p c) with (i := i); auto.
+    + pose proof (nth_error_count_pos _ _ _ Hp Hne). lia.
 Qed.
 
 Lemma has_single cs fl p only k' w :
@@ -643,6 +640,14 @@ Lemma canon_shape n : canon n -> n <> Empty ->
   (exists cs f, n = Full cs f).
 Proof.
   intros Hc Hne. destruct Hc; [congruence| | |]; eauto 12.
+Qed.
+
+Lemma has_short_cons pos ck cv f1 f2 k' w :
+  (exists r, k' = pos :: r /\ has (Short ck cv f2) r w) <-> has (Short (pos :: ck) cv f1) k' w.
+Proof.
+  rewrite has_short. split.
+  - intros (r & -> & Hr). apply has_short in Hr as (r2 & -> & Hr2). exists r2. cbn. auto.
+  - intros (r & -> & Hr). exists (ck ++ r). cbn. split; auto. apply has_short. eauto.
 Qed.
 
 Lemma collapse_spec cs fl k0 c nn :
@@ -682,9 +687,132 @@ Proof.
         cbn [rbind].
       * exists (Short (pos :: p ++ [16]) (Value v) newflag). split; auto.
         split; [apply (CLeaf (pos :: p)); auto; constructor; auto|]. split; [discriminate|].
-        intros k' w. rewrite (has_single cs' newflag pos _ k' w Hone Hp Hne). rewrite has_short.
-        split.
-        -- intros (r & -> & Hr). exists (pos :: r). split; auto... 
-Abort.
+        intros k' w. rewrite (has_single cs' newflag pos _ k' w Hone Hp Hne).
+        symmetry. apply has_short_cons.
+      * exists (Short (pos :: k) (Full cs1 g) newflag). split; auto.
+        split; [constructor; auto; [discriminate|constructor; auto]|]. split; [discriminate|].
+        intros k' w. rewrite (has_single cs' newflag pos _ k' w Hone Hp Hne).
+        symmetry. apply has_short_cons.
+      * exists (Short [pos] (Full cs1 f) newflag). split; auto.
+        split; [constructor; auto; [discriminate|constructor; auto; constructor]|]. split; [discriminate|].
+        intros k' w. rewrite (has_single cs' newflag pos _ k' w Hone Hp Hne).
+        rewrite has_short. cbn [app]. tauto.
+  - exists (Full cs' newflag). split; auto. split; [|split; [discriminate|tauto]].
+    constructor; auto.
+  - lia.
+Qed.
+
+Lemma merge_short nk ck cc f1 f2 f3 k' w :
+  has (Short (nk ++ ck) cc f1) k' w <-> has (Short nk (Short ck cc f2) f3) k' w.
+Proof.
+  rewrite !has_short. split.
+  - intros (r & -> & Hr). exists (ck ++ r). rewrite app_assoc. split; auto. apply has_short. eauto.
+  - intros (r & -> & Hr). apply has_short in Hr as (r2 & -> & Hr2). exists r2. rewrite app_assoc. auto.
+Qed.
+
+Lemma delete_spec :
+  forall fuel n k, canon n -> wfk k -> length k < fuel ->
+  exists b n', delete fuel d n k = Ok (b, n') /\ canon n' /\
+               (b = false -> n' = n) /\
+               (forall cs g, n = Full cs g -> n' <> Empty) /\
+               del_spec n n' k.
+Proof.
+  induction fuel as [|f IH]; intros n k Hc Hk Hf; [lia|].
+  destruct Hc as [|p v0 fl Hp Hv0|nk cs g fl Hnk Hn Hc|cs fl Hl Hch H16 Hcnt].
+  - (* Empty *)
+    exists false, Empty. split; [reflexivity|]. split; [constructor|]. split; auto.
+    split; [discriminate|]. apply del_spec_absent. intros w Hw. inversion Hw.
+  - (* Leaf *)
+    rewrite delete_short_eq. cbv zeta.
+    destruct (prefix_len_split k (p ++ [16])) as (pre & rk & rn & Ek & Enk & Hml & Hdiv).
+    rewrite <- Hml.
+    assert (Hwnk : wfk (p ++ [16])) by (apply wfk_snoc; auto).
+    destruct rn as [|oi rn'].
+    + rewrite app_nil_r in Enk. subst pre.
+      assert (rk = []) as -> by (apply (wfk_prefix_eq (p ++ [16]) rk); [auto | rewrite <- Ek; auto]).
+      rewrite app_nil_r in Ek. subst k. rewrite Nat.ltb_irrefl, Nat.eqb_refl.
+      exists true, Empty. split; auto. split; [constructor|]. split; [discriminate|].
+      split; [discriminate|].
+      intros k' w. rewrite has_empty, has_short. split; [tauto|].
+      intros [Hne (r & -> & Hr)]. apply has_value in Hr as [-> ->]. rewrite app_nil_r in Hne. congruence.
+    + assert (Hlt : Nat.ltb (length pre) (length (p ++ [16])) = true).
+      { apply Nat.ltb_lt. rewrite Enk, app_length. cbn. lia. }
+      rewrite Hlt. exists false, (Short (p ++ [16]) (Value v0) fl). split; auto.
+      split; [constructor; auto|]. split; auto. split; [discriminate|].
+      apply del_spec_absent. intros w Hw. apply has_short in Hw as (r & Hr & _).
+      pose proof (prefix_len_app (p ++ [16]) r) as Hpl. rewrite <- Hr, <- Hml in Hpl.
+      apply Nat.ltb_lt in Hlt. lia.
+  - (* Ext *)
+    rewrite delete_short_eq. cbv zeta.
+    destruct (prefix_len_split k nk) as (pre & rk & rn & Ek & Enk & Hml & Hdiv).
+    rewrite <- Hml.
+    destruct rn as [|oi rn'].
+    + rewrite app_nil_r in Enk. subst pre. subst k. rewrite Nat.ltb_irrefl.
+      assert (Hr : wfk rk) by (apply (wfk_app_inv nk); auto).
+      assert (Hlk : Nat.eqb (length nk) (length (nk ++ rk)) = false).
+      { apply Nat.eqb_neq. rewrite app_length. destruct rk; [cbn in Hr; tauto|cbn; lia]. }
+      rewrite Hlk. rewrite skipn_app_len.
+      destruct (IH (Full cs g) rk Hc Hr) as (b & child & Hd & Hcc & Hb & Hne & Hs).
+      { rewrite app_length in Hf. destruct nk; [congruence|]. cbn in Hf. lia. }
+      rewrite Hd. cbn [rbind fst snd]. specialize (Hne _ _ eq_refl).
+      assert (Hlift : forall n2, (forall k' w, has n2 k' w <-> has (Short nk child newflag) k' w) ->
+                                 del_spec (Short nk (Full cs g) fl) n2 (nk ++ rk)).
+      { intros n2 Hn2 k' w. rewrite Hn2, !has_short. split.
+        - intros (r & -> & Hh). apply Hs in Hh as [Hne' Hh]. split; eauto.
+          intros Heq. apply app_inv_head in Heq. congruence.
+        - intros [Hne' (r & -> & Hh)]. exists r. split; auto. apply Hs. split; auto. congruence. }
+      destruct b.
+      * destruct (canon_shape _ Hcc Hne) as [(p & v & f0 & -> & Hnp & Hv)|[(k1 & cs1 & g1 & f0 & -> & Hk1 & Hnk1 & Hcf)|(cs1 & f0 & ->)]].
+        -- exists true, (Short (nk ++ p ++ [16]) (Value v) newflag). split; auto.
+           split; [rewrite app_assoc; constructor; auto; apply nibs_app; auto|].
+           split; [discriminate|]. split; [discriminate|]. apply Hlift. intros. apply merge_short.
+        -- exists true, (Short (nk ++ k1) (Full cs1 g1) newflag). split; auto.
+           split; [constructor; auto; [destruct nk; [congruence|discriminate]|apply nibs_app; auto]|].
+           split; [discriminate|]. split; [discriminate|]. apply Hlift. intros. apply merge_short.
+        -- exists true, (Short nk (Full cs1 f0) newflag). split; auto.
+           split; [constructor; auto|]. split; [discriminate|]. split; [discriminate|].
+           apply Hlift. tauto.
+      * specialize (Hb eq_refl). subst child.
+        exists false, (Short nk (Full cs g) fl). split; auto. split; [constructor; auto|].
+        split; auto. split; [discriminate|].
+        intros k' w. rewrite !has_short. split.
+        -- intros (r & -> & Hh). pose proof Hh as Hh2. apply Hs in Hh as [Hne' Hh]. split; eauto.
+           intros Heq. apply app_inv_head in Heq. congruence.
+        -- intros [Hne' (r & -> & Hh)]. eauto.
+    + assert (Hlt : Nat.ltb (length pre) (length nk) = true).
+      { apply Nat.ltb_lt. rewrite Enk, app_length. cbn. lia. }
+      rewrite Hlt. exists false, (Short nk (Full cs g) fl). split; auto.
+      split; [constructor; auto|]. split; auto. split; [discriminate|].
+      apply del_spec_absent. intros w Hw. apply has_short in Hw as (r & Hr & _).
+      pose proof (prefix_len_app nk r) as Hpl. rewrite <- Hr, <- Hml in Hpl.
+      apply Nat.ltb_lt in Hlt. lia.
+  - (* Full *)
+    destruct k as [|k0 kt]; [cbn in Hk; tauto|]. rewrite delete_full_eq.
+    assert (Hcf : canon (Full cs fl)) by (constructor; auto).
+    assert (Hk0 : k0 <= 16) by (cbn in Hk; lia).
+    destruct (nth_error_lt_some cs k0) as (c & Hn); [lia|]. rewrite Hn.
+    (* the child's answer *)
+    assert (Hchild : exists b nn, delete f d c kt = Ok (b, nn) /\ slot_ok k0 nn /\
+                                  (b = false -> nn = c) /\ del_spec c nn kt).
+    { cbn in Hk. destruct Hk as [[-> ->]|[Hi Hkt]].
+      - destruct f as [|f]; [cbn in Hf; lia|].
+        destruct (H16 _ Hn) as [->|(v & Hv & ->)].
+        + exists false, Empty. split; [reflexivity|]. split; [split; [intros; lia|auto]|].
+          split; auto. apply del_spec_absent. intros w Hw. inversion Hw.
+        + exists true, Empty. split; [reflexivity|]. split; [split; [intros; lia|auto]|].
+          split; [discriminate|]. intros k' w. rewrite has_empty, has_value. split; [tauto|].
+          intros [Hne [-> _]]. congruence.
+      - destruct (IH c kt (Hch _ _ Hn Hi) Hkt) as (b & nn & Hd & Hcn & Hb & _ & Hs); [cbn in Hf; lia|].
+        exists b, nn. split; auto. split; [split; [auto|intros; lia]|]. auto. }
+    destruct Hchild as (b & nn & Hd & Hslot & Hb & Hs). rewrite Hd. cbn [rbind fst snd].
+    destruct b.
+    + destruct (collapse_spec cs fl k0 c nn Hcf Hk0 Hn Hslot) as (n' & Hco & Hcan & Hne & Hh).
+      rewrite Hco. exists true, n'. split; auto. split; auto. split; [discriminate|]. split; auto.
+      intros k' w. rewrite Hh. apply (full_del_spec cs fl newflag k0 kt c nn Hn Hs).
+    + specialize (Hb eq_refl). subst nn. exists false, (Full cs fl). split; auto. split; auto.
+      split; auto. split; [discriminate|].
+      intros k' w. pose proof (full_del_spec cs fl fl k0 kt c c Hn Hs k' w) as Hx.
+      rewrite (set_nth_same _ _ _ Hn) in Hx. exact Hx.
+Qed.
 
 End WithDb.
